@@ -268,3 +268,7 @@ def window_refresh_source(ck, P, R="GUARD/window-refresh-source"):
         ck.decide(ok, R, "deflate_stored:refresh#%d" % i, "source = next_in - (length of the copy)",
                   "deflate_stored refreshes the window from a source that does not end at next_in (%s): the window receives older input than "
                   "the bytes just consumed, so the retrievable dictionary and later matches refer to the wrong history" % detail, where(f, c.line))
+
+# session 5 (round 11)
+EXPLANATION = EXPLANATION + " " + (
+    'GUARD/window-refresh-source (round 11): deflate_stored refreshes the window from next_in minus the length of the copy (the last bytes consumed), which is what deflateGetDictionary and later matches see.')
